@@ -18,6 +18,15 @@
 (* fp is the failure point ("none": no failure - the sub-step's effects    *)
 (* are then visible, which shows that the observed components do move).    *)
 (*                                                                         *)
+(* A received packet has TWO follow-ups after the transfer application has *)
+(* minted the voucher: the move of the coin into the EVM and the handling  *)
+(* of the memo.  They are independent dimensions of the step: fp says what *)
+(* becomes of the first (the coin / receiver class of the packet), mk what *)
+(* becomes of the second (the kind of memo).  The step is a tolerated      *)
+(* failure as soon as EITHER follow-up fails, whatever the other one does  *)
+(* (no memo, a memo that is ignored by design, a call that would succeed,  *)
+(* a call that fails too).                                                 *)
+(*                                                                         *)
 (* `residue` is what the differential oracle of the binding measures: the  *)
 (* number of store keys in which the real state after the step differs     *)
 (* from the designated outcome produced from the same pre-state by the     *)
@@ -29,7 +38,11 @@ CONSTANTS MaxSteps,   \* bound on the number of steps
           AttFp,      \* failure points per boundary (sets of strings, each containing "none")
           CallFp,     \*   "revert0" "revert1" "inv0" "inv1" "under" "jump" "loop" "sct0" "sct1" "gas<k>" "gaslow" "pair1..3" "unknown"
           GovFp,      \*   "first" "middle" "last" "midwrite"
-          IbcFp,      \*   "memo0" "memo1" "memoInvalid" "alias" "unknown" "bech" "pairOff"
+          IbcFp,      \*   first follow-up of a packet (coin into the EVM): "none" voucher with a token pair, converted;
+                      \*   "fx" the native coin, nothing to convert; failing: "alias" "unknown" "bech" "pairOff"
+          IbcMemo,    \*   second follow-up of a packet (memo): "none" no memo; ignored by design: "text" free text, "json" JSON
+                      \*   that is not an ibc call; "call" a call that succeeds; failing: "rev0" "rev1" reverting callee
+                      \*   (at once / after a write), "invalid" call packet failing its validation
           Refund      \* refund addresses of inbound calls: "rA" holds nothing, "rB" holds tokens of its own
 
 VARIABLES nobs,    \* events observed (attestation + bridge call claims)
@@ -46,11 +59,12 @@ VARIABLES nobs,    \* events observed (attestation + bridge call claims)
           nin,     \* packets received
           ack,     \* acknowledgement written per packet
           vcred,   \* ERC-20 credited by received packets
+          icall,   \* a memo call of a received packet has reached its (successful) callee
           residue, \* differential oracle (see above)
           steps,   \* bounding counter
           op
 
-svars == <<nobs, parked, nref, refs, held, wslot, rslot, ntok, np, pstat, gmark, nin, ack, vcred, residue, steps>>
+svars == <<nobs, parked, nref, refs, held, wslot, rslot, ntok, np, pstat, gmark, nin, ack, vcred, icall, residue, steps>>
 vars  == <<svars, op>>
 
 Slot    == 1..(MaxSteps + 1)
@@ -60,18 +74,23 @@ NoRef   == [who |-> "none", amt |-> <<0, 0, 0>>]
 
 Abs == [nobs |-> nobs, parked |-> parked, nref |-> nref, refs |-> refs, held |-> held, wslot |-> wslot, rslot |-> rslot,
         ntok |-> ntok, np |-> np, pstat |-> pstat, gmark |-> gmark, nin |-> nin, ack |-> ack, vcred |-> vcred,
-        residue |-> residue]
+        icall |-> icall, residue |-> residue]
 
-Op(name, b, fp, rf, res) == [name |-> name, b |-> b, fp |-> fp, rf |-> rf, res |-> res]
+Op(name, b, fp, rf, mk, res) == [name |-> name, b |-> b, fp |-> fp, rf |-> rf, mk |-> mk, res |-> res]
+
+\* classification of a packet by what its two follow-ups do (from the packet alone, not from the state)
+IbcOkCv    == {"none", "fx"}                 \* coin classes whose move into the EVM succeeds (or is not needed)
+IbcBadMemo == {"rev0", "rev1", "invalid"}    \* memo kinds whose handling fails
+IbcFails(fp, mk) == fp \notin IbcOkCv \/ mk \in IbcBadMemo
 
 Init ==
   /\ nobs = 0 /\ parked = 0 /\ nref = 0 /\ refs = [i \in Slot |-> NoRef]
   /\ held = [h \in Holder |-> IF h = "rB" THEN 30 ELSE 0]
   /\ wslot = 0 /\ rslot = 0 /\ ntok = 0
   /\ np = 0 /\ pstat = [i \in Slot |-> "none"] /\ gmark = 0
-  /\ nin = 0 /\ ack = [i \in Slot |-> "none"] /\ vcred = 0
+  /\ nin = 0 /\ ack = [i \in Slot |-> "none"] /\ vcred = 0 /\ icall = FALSE
   /\ residue = 0 /\ steps = 0
-  /\ op = Op("Init", "none", "none", "none", "ok")
+  /\ op = Op("Init", "none", "none", "none", "none", "ok")
 
 Rej(o) == /\ op' = [o EXCEPT !.res = "rej"] /\ UNCHANGED svars
 
@@ -79,7 +98,7 @@ Rej(o) == /\ op' = [o EXCEPT !.res = "rej"] /\ UNCHANGED svars
 StepAtt(fp) ==
   /\ nobs' = nobs + 1
   /\ ntok' = IF fp = "none" THEN ntok + 1 ELSE ntok          \* the handler's effect only when it succeeds
-  /\ UNCHANGED <<parked, nref, refs, held, wslot, rslot, np, pstat, gmark, nin, ack, vcred>>
+  /\ UNCHANGED <<parked, nref, refs, held, wslot, rslot, np, pstat, gmark, nin, ack, vcred, icall>>
 
 (* The deposit of the call's tokens and the conversion to ERC-20 belong to  *)
 (* the call: when the contract call fails they go back out in the refund    *)
@@ -98,36 +117,41 @@ StepCall(fp, rf) ==
             /\ nref' = nref + 1
             /\ refs' = [refs EXCEPT ![nref + 1] = [who |-> rf, amt |-> CallAmt]]
             /\ UNCHANGED <<parked, held, wslot>>
-  /\ UNCHANGED <<rslot, ntok, np, pstat, gmark, nin, ack, vcred>>
+  /\ UNCHANGED <<rslot, ntok, np, pstat, gmark, nin, ack, vcred, icall>>
 
 StepGov(fp) ==
   /\ np' = np + 1
   /\ pstat' = [pstat EXCEPT ![np + 1] = IF fp = "none" THEN "passed" ELSE "failed"]
   /\ gmark' = IF fp = "none" THEN gmark + 3 ELSE gmark
-  /\ UNCHANGED <<nobs, parked, nref, refs, held, wslot, rslot, ntok, nin, ack, vcred>>
+  /\ UNCHANGED <<nobs, parked, nref, refs, held, wslot, rslot, ntok, nin, ack, vcred, icall>>
 
-StepIbc(fp) ==
+(* Either follow-up failing turns the whole packet into an error            *)
+(* acknowledgement: IBC core then discards everything the packet wrote -    *)
+(* the voucher of the transfer step, a conversion that succeeded before a   *)
+(* failing memo call; no memo call is made after a failed conversion.       *)
+StepIbc(fp, mk) ==
   /\ nin' = nin + 1
-  /\ ack' = [ack EXCEPT ![nin + 1] = IF fp = "none" THEN "ok" ELSE "err"]
-  /\ vcred' = IF fp = "none" THEN vcred + 1 ELSE vcred
+  /\ ack' = [ack EXCEPT ![nin + 1] = IF IbcFails(fp, mk) THEN "err" ELSE "ok"]
+  /\ vcred' = IF ~IbcFails(fp, mk) /\ fp = "none" THEN vcred + 1 ELSE vcred
+  /\ icall' = (icall \/ (~IbcFails(fp, mk) /\ mk = "call"))
   /\ UNCHANGED <<nobs, parked, nref, refs, held, wslot, rslot, ntok, np, pstat, gmark>>
 
-Step(b, fp, rf) ==
+Step(b, fp, rf, mk) ==
   /\ CASE b = "att"  -> StepAtt(fp)
        [] b = "call" -> StepCall(fp, rf)
        [] b = "gov"  -> StepGov(fp)
-       [] b = "ibc"  -> StepIbc(fp)
+       [] b = "ibc"  -> StepIbc(fp, mk)
   /\ residue' = 0
   /\ steps' = steps + 1
-  /\ op' = Op("Step", b, fp, rf, "ok")
+  /\ op' = Op("Step", b, fp, rf, mk, "ok")
 
-Probe == op' = Op("Probe", "none", "none", "none", "ok") /\ UNCHANGED svars
+Probe == op' = Op("Probe", "none", "none", "none", "none", "ok") /\ UNCHANGED svars
 
 Next ==
-  \/ \E fp \in AttFp : Step("att", fp, "none")
-  \/ \E fp \in CallFp, rf \in Refund : Step("call", fp, rf)
-  \/ \E fp \in GovFp : Step("gov", fp, "none")
-  \/ \E fp \in IbcFp : Step("ibc", fp, "none")
+  \/ \E fp \in AttFp : Step("att", fp, "none", "none")
+  \/ \E fp \in CallFp, rf \in Refund : Step("call", fp, rf, "none")
+  \/ \E fp \in GovFp : Step("gov", fp, "none", "none")
+  \/ \E fp \in IbcFp, mk \in IbcMemo : Step("ibc", fp, "none", mk)
   \/ Probe
 
 Spec == Init /\ [][Next]_vars
@@ -138,11 +162,11 @@ Spec == Init /\ [][Next]_vars
 \* nothing of the failed sub-step is left in any store
 C18_NoResidue == residue = 0
 
-Failing == op'.name = "Step" /\ op'.fp # "none"
+Failing == op'.name = "Step" /\ op'.fp # "none"       \* att / call / gov (a packet's two follow-ups: see IbcFails)
 AttVars  == <<ntok>>
 CallVars == <<parked, nref, refs, held, wslot, rslot>>
 GovVars  == <<np, pstat, gmark>>
-IbcVars  == <<nin, ack, vcred>>
+IbcVars  == <<nin, ack, vcred, icall>>
 
 \* an observed event whose handler fails: never refused, marked observed, nothing else
 A_C18_AttMarkedObserved ==
@@ -170,11 +194,12 @@ A_C18_GovMarkedFailed ==
      /\ nobs' = nobs /\ UNCHANGED <<AttVars, CallVars, IbcVars>>
 C18_GovMarkedFailed == [][A_C18_GovMarkedFailed]_vars
 
-\* a packet whose follow-up fails: error acknowledgement, nothing credited
+\* a packet one of whose follow-ups fails (the move into the EVM, the memo call - whatever the other one is or does):
+\* error acknowledgement, nothing credited, no memo call executed
 A_C18_IbcErrorAck ==
-  (Failing /\ op'.b = "ibc") =>
+  (op'.name = "Step" /\ op'.b = "ibc" /\ IbcFails(op'.fp, op'.mk)) =>
      /\ op'.res = "ok" /\ nin' = nin + 1 /\ nin + 1 \in Slot
-     /\ ack' = [ack EXCEPT ![nin + 1] = "err"] /\ vcred' = vcred
+     /\ ack' = [ack EXCEPT ![nin + 1] = "err"] /\ vcred' = vcred /\ icall' = icall
      /\ nobs' = nobs /\ UNCHANGED <<AttVars, CallVars, GovVars>>
 C18_IbcErrorAck == [][A_C18_IbcErrorAck]_vars
 
